@@ -96,7 +96,8 @@ RouteOpsFor(c, r, a, m, t) ==
 
 RouteOpsSet ==
     UNION { UNION {
-      {RouteOpsFor(c, r, a, m, t) : c \in {"trader", "attacker"}, m \in Mins(r, a), t \in {NoneS, Some("other")}} :
+      {RouteOpsFor(c, r, a, m, t) : c \in {"trader", "attacker"}, m \in Mins(r, a),
+                                     t \in {NoneS, Some("other")} \cup (IF FOURPAIRS THEN {Some(RTR)} ELSE {})} :
         a \in AMTS } : r \in GoodRoutes \cup BadRoutes }
 
 DirectSwaps ==
